@@ -266,6 +266,24 @@ func Exec(ops []hx.T) (obs []any, nontrivial bool, tags []string) {
 		case "OCreate":
 			w.create(o.Int(0), o.Bool(1), o.Int(2), o.List(3))
 			obs = append(obs, "BUnit")
+		case "OCreateN":
+			for i := int64(0); i < o.Int(0); i++ {
+				w.create(o.Int(1), o.Bool(2), o.Int(3), nil)
+			}
+			w.tags["create-n"] = true
+			obs = append(obs, "BUnit")
+		case "OStall":
+			// the owner is busy elsewhere: nothing is read from the queue for this long
+			time.Sleep(time.Duration(o.Int(0)) * unit)
+			q := w.mgr.GetQueue()
+			if len(q) == cap(q) {
+				w.tags["queue-full-during-stall"] = true
+				w.nontriv = true
+			}
+			if o.Int(0) >= 1000 {
+				w.tags["stall>=1s"] = true
+			}
+			obs = append(obs, "BUnit")
 		case "OCancel":
 			w.cancel(o.Int(0))
 			obs = append(obs, "BUnit")
